@@ -10,6 +10,7 @@
 import Gts.Lemmas.Resize
 import Gts.Lemmas.ModRoundTrip
 import Gts.Lemmas.Locator
+import Gts.Lemmas.ResizeLocate
 namespace Gts.C08
 open Gts Reg Pars
 
@@ -96,6 +97,36 @@ theorem resize_den (r : Reg) (m : Mod) (hv : nonvoid r = true)
     den (resize r m) =
       ((den r).drop (bounds m (len r)).1.toNat).take ((bounds m (len r)).2 - (bounds m (len r)).1).toNat :=
   (denLaw_of_nonvoid r hv).2 m h0 h1 h2
+
+/-- **resize_locate_bytes** — the MAIN theorem at the byte level ("the extracted sequence").  For a record
+`s`, a region `r` INSIDE it (`Reg.within s.len r`: both ends of every segment, zero-length ones included, lie
+in `[0, len]` — the condition under which no `Slice` inside the real `Locate` panics or wraps), no `Regions`
+value in `r` empty, and a modifier whose bounds satisfy `0 ≤ lo ≤ hi ≤ len r`: the residues extracted by
+`r.Resize(m).Locate(s)` are the residues of `Slice(r.Locate(s), lo, hi)`, which are bytes `lo .. hi-1` of the
+residues extracted by `r.Locate(s)`.  BYTES only: nothing is said about the feature table of the two
+sequences, nor — on the real code — about `r.Resize(m)` itself staying clear of a panicking `Slice`. -/
+theorem resize_locate_bytes (r : Reg) (m : Mod) (s : Seq) (hv : nonvoid r = true)
+    (hb : within s.len r)
+    (h0 : 0 ≤ (bounds m (len r)).1) (h1 : (bounds m (len r)).1 ≤ (bounds m (len r)).2)
+    (h2 : (bounds m (len r)).2 ≤ len r) :
+    (locate (resize r m) s).bytes =
+        ((locate r s).slice (bounds m (len r)).1 (bounds m (len r)).2).bytes ∧
+    ((locate r s).slice (bounds m (len r)).1 (bounds m (len r)).2).bytes =
+      ((locate r s).bytes.drop (bounds m (len r)).1.toNat).take
+        ((bounds m (len r)).2 - (bounds m (len r)).1).toNat := by
+  have hs := slice_bytes_inside (locate r s) _ _ h0 h1
+  exact ⟨(resize_locate_bytes_den r m s hv (denIn_of_within hb) h0 h1 h2).trans hs.symm, hs⟩
+
+/-- non-vacuity: a mixed-orientation three-segment region inside a 12-residue record, `^+2..^+5`:
+hypotheses hold and the extraction is evaluated (`acgt` ++ reverse complement of `gt` ++ `gt` = `acgtacgt`,
+its bytes 2..4 = `gta`; 97 = a, 99 = c, 103 = g, 116 = t) -/
+example :
+    let s : Seq := ⟨[], [97, 99, 103, 116, 97, 99, 103, 116, 97, 99, 103, 116]⟩
+    let r := many [seg 0 4, seg 8 6, seg 10 12]
+    let m := Mod.headHead 2 5
+    nonvoid r = true ∧ within s.len r ∧ bounds m (len r) = (2, 5) ∧ len r = 8 ∧
+    (locate r s).bytes = [97, 99, 103, 116, 97, 99, 103, 116] ∧
+    (locate (resize r m) s).bytes = [103, 116, 97] := by decide
 
 /-- the flat case of the property text: `1..n` segments (`(head, tail)` pairs, forward when
 `head ≤ tail`, backward otherwise, any mix, empty segments allowed) -/
